@@ -25,6 +25,7 @@ from ..astutil import (text, access_path, access_paths_in, single_defs, canon, c
                        method_call, func_params, calls_in, const_value, is_const)
 from ..loader import where, AnalysisError
 from ..paths import Enumerator
+from ..terms import Terms, PathEnv
 
 
 def worklists(cls):
@@ -365,29 +366,49 @@ def r3_sensitivity(ctx, repo, cls):
     # writes of the total into costs / costs_signed on every path of the design-loop body
     fake = ast.FunctionDef(name="body", args=run.args, body=ploop.body, decorator_list=[], returns=None, type_comment=None, lineno=ploop.lineno, col_offset=0)
     n = 0
+    TR = Terms(run)
+    total_node = ast.parse(total, mode="eval").body
+
+    total_names = set()     # locals known to hold the sum on the current path (a later store may invalidate the *term*, not the local)
+
+    def is_total(expr, at):
+        # the written value is the accumulated sum, through whatever locals it was passed
+        if isinstance(expr, ast.Name) and expr.id in total_names:
+            return True
+        ok_ = text(TR.expand(expr, at=at)) == text(TR.expand(total_node, at=at)) or text(expr) == total
+        if ok_ and isinstance(expr, ast.Name):
+            total_names.add(expr.id)
+        return ok_
     for p in Enumerator(loop_counts=(0, 1, 2)).function_paths(fake):
         n += 1
         wc, ws, marker_bad = 0, 0, None
+        total_names.clear()
         for e in p.events:
             if e.kind != "stmt":
                 continue
             s = e.node
+            if isinstance(s, (ast.Assign, ast.AugAssign)):
+                for t_ in (s.targets if isinstance(s, ast.Assign) else [s.target]):
+                    if isinstance(t_, ast.Name):
+                        total_names.discard(t_.id)
+                if isinstance(s, ast.Assign) and len(s.targets) == 1 and isinstance(s.targets[0], ast.Name) and is_total(s.value, s):
+                    total_names.add(s.targets[0].id)
             if isinstance(s, ast.Expr) and isinstance(s.value, ast.Call):
                 mc = method_call(s.value)
-                if mc and access_path(mc[0]) == ind + ".costs" and mc[1] == "append" and text(s.value.args[0]) == total:
+                if mc and access_path(mc[0]) == ind + ".costs" and mc[1] == "append" and is_total(s.value.args[0], s):
                     wc += 1
                 elif mc and access_path(mc[0]) == ind + ".costs_signed":
-                    if mc[1] == "insert" and len(s.value.args) == 2 and text(s.value.args[1]) == total:
+                    if mc[1] == "insert" and len(s.value.args) == 2 and is_total(s.value.args[1], s):
                         ws += 1
                         try:
                             if fold(s.value.args[0]) != -1:
                                 marker_bad = s
                         except ValueError:
                             marker_bad = s
-                    elif mc[1] == "append" and s.value.args and text(s.value.args[0]) == total:
+                    elif mc[1] == "append" and s.value.args and is_total(s.value.args[0], s):
                         ws += 1
                         marker_bad = s
-            elif isinstance(s, ast.Assign) and len(s.targets) == 1 and isinstance(s.targets[0], ast.Subscript) and text(s.value) == total:
+            elif isinstance(s, ast.Assign) and len(s.targets) == 1 and isinstance(s.targets[0], ast.Subscript) and is_total(s.value, s):
                 base = access_path(s.targets[0].value)
                 try:
                     idx = fold(s.targets[0].slice)
@@ -457,7 +478,7 @@ def r4_gradient(ctx, repo, cls):
     if access_path(q.targets[0].slice) != ivar or not counter_ok:
         ctx.violated("R4", construct, where(mod, q), "gradient component index %s does not run 0,1,2... in step with the children (one per axis)" % text(q.targets[0].slice), key="quotient")
         return
-    v = q.value
+    v = Terms(run).expand(q.value, at=q, skip=(ch, ind))
     if not (isinstance(v, ast.BinOp) and isinstance(v.op, ast.Div)):
         ctx.violated("R4", construct, where(mod, q), "gradient component %s is not a difference quotient" % text(v), key="quotient")
         return
@@ -465,7 +486,9 @@ def r4_gradient(ctx, repo, cls):
     if not (isinstance(num, ast.BinOp) and isinstance(num.op, ast.Sub)):
         ctx.violated("R4", construct, where(mod, q), "numerator %s is not a difference" % text(num), key="quotient")
         return
-    if text(num.left) != "%s.costs[0]" % ch or text(num.right) != "%s.costs[0]" % ind:
+    TQ = Terms(run)
+    want_l = text(TQ.expand(ast.parse("%s.costs[0]" % ch, mode="eval").body, at=q))
+    if text(num.left) not in ("%s.costs[0]" % ch, want_l) or text(num.right) != "%s.costs[0]" % ind:
         ctx.violated("R4", construct, where(mod, q), "numerator is %s, expected f0(child) - f0(parent) = %s.costs[0] - %s.costs[0] (forward difference of the first objective)" % (text(num), ch, ind), key="quotient")
         return
     if step_attr is None or access_path(den) != step_attr.replace(step_attr.split(".")[0], selfn, 1):
